@@ -260,6 +260,17 @@ def roots_stream(ctx, n):
                 ok = len(g) == len(exp) and all(abs(a - b) < tol * max(1, abs(b)) for a, b in zip(g, exp))
         if not ok:
             ctx.disagree(f"C20:roots:deg{len(rs)}:{mode}", desc, exp, got[1:3] if got[0] != "ok" else np.asarray(got[1]).tolist(), replay=[desc])
+        elif mode not in ("double", "triple") and len(rs) >= 2:
+            # the same polynomial with all coefficients multiplied by a small / large factor has the same roots
+            sc = rng.choice([1e-9, 1e-6, 1e6])
+            gs = call_impl(gu.roots, p * sc)
+            ctx.count("roots:scaled")
+            oks = gs[0] == "ok" and len(np.atleast_1d(gs[1])) == len(exp)
+            if oks:
+                g2 = sorted([complex(z) for z in np.atleast_1d(gs[1])], key=lambda z: (round(z.real, 6), round(z.imag, 6)))
+                oks = all(abs(a - b) < 1e-7 * max(1, abs(b)) for a, b in zip(g2, exp))
+            if not oks:
+                ctx.disagree(f"C20:roots:scaled:deg{len(rs)}", desc + f" coefficients times {sc}", exp, gs[1:3] if gs[0] != "ok" else np.asarray(gs[1]).tolist(), replay=[desc])
 
 
 def ismultiple_stream(ctx, n):
